@@ -52,6 +52,7 @@ def c02_parts(tier, seed):
         P("tree", "c02_position", "seq", ["--part", "tree", "--depth", 3 if q else 4], require=["transpositions", "nontrivial"], deadline_frac=0.8),
         P("U-3x2", "c02_position", "seq", ["--part", "u3", "--wk", 1 if q else 0, "--depth", 1 if q else 2], require=["states"], deadline_frac=0.8),
         P("matid", "c02_position", "seq", ["--part", "matid", "--stride", 97 if q else 1], require=["nontrivial"]),
+        P("U-KRAID", "c02_position", "seq", ["--part", "ukraid", "--depth", 1 if q else 2], require=["states"], deadline_frac=0.8),
     ]
     if not q:
         parts.append(P("U-EPx2", "c02_position", "seq", ["--part", "uep", "--sliders", 1, "--depth", 2], require=["states"], deadline_frac=0.8))
@@ -63,7 +64,8 @@ CHECKS["C02"] = dict(
     rule="states = nodes of the make/unmake trees (each node is a distinct move history from its root) plus material vectors; transitions = makeMove/unMakeMove "
          "pairs executed; a history is non-trivial when the node has a capture, promotion or castling move among its legal moves (trees) or a side has >= 6 queens (matid)",
     alphabet="operations: makeMove, unMakeMove, null-move edits (setWhiteMove/setEpSquare/setHalfMoveClock), toFEN/readFEN, serialize/deSerialize, hashAfterMove, "
-             "MatId::addPiece/addPieceCnt/removePiece; roots: seed list, U-3, U-EP, U-CASTLE",
+             "MatId::addPiece/addPieceCnt/removePiece; roots: seed list, U-3, U-EP, U-CASTLE, U-KRAID (one side with king and rooks at home and every subset of its rights, the other side to move with its king on every square and "
+             "optionally one more piece anywhere: corner rooks captured or attacked while the right is still held)",
     oracle="bit-identical field comparison after unmake; every incremental attribute recomputed from the board (harness code + computeZobristHash on a copy); "
            "lock-step independent oracle board; FIDE repetition key -> hash map for the hash-equality clause",
     bound=dict(quick="all move sequences of depth 3 from 30 seeds (incl. seeds reaching 6-8 queens), depth 1 from U-3 (wK files a-d), material vectors thinned by 97",
@@ -92,6 +94,7 @@ def c15_parts(tier, seed):
         P("U-PERFT", "c15_revmovegen", "seq", ["--part", "perft", "--depth", 2 if q else 3], require=["ep_captures", "capture_promotions", "rights_losing_moves"]),
         P("U-3", "c15_revmovegen", "fast", ["--part", "u3", "--wk", 2 if q else 1, "--types", 0x64 if q else 0x7c], require=["states"]),
         P("U-CASTLE", "c15_revmovegen", "seq", ["--part", "ucastle", "--blockers", 0], require=["rights_losing_moves"]),
+        P("U-KRAID", "c15_revmovegen", "fast", ["--part", "ukraid"], require=["rights_losing_moves"]),
         P("U-EP", "c15_revmovegen", "fast", ["--part", "uep"] + (["--sliders", 3, "--files", 17, "--sides", 2] if q else ["--sliders", 7]), require=["ep_captures"]),
     ]
     if not q:
@@ -289,7 +292,7 @@ def c13_parts(tier, seed):
     if q:
         return [
             P("3men", T, "fast", ["--part", "3men", "--names", "KQvK,KvKR", "--clocks", "0", "--mrange", 1, "--polls", 3, "--stride", 2], require=["nontrivial", "not_completable_roots"], deadline_frac=0.9),
-            P("4men", T, "fast", ["--part", "4men", "--names", "KBNvK,KQvKR", "--clocks", "0", "--mrange", 1, "--polls", 3, "--stride", 499], require=["nontrivial"], deadline_frac=0.9),
+            P("4men", T, "fast", ["--part", "4men", "--names", "KBNvK,KQvKR", "--clocks", "0", "--mrange", 1, "--polls", 3, "--stride", 499], require=["nontrivial", "timed_second_searches"], deadline_frac=0.9),
         ]
     return [
         P("3men", T, "fast", ["--part", "3men", "--clocks", "0,99", "--mrange", 2, "--polls", 6], require=["nontrivial", "not_completable_roots"], deadline_frac=0.95),
@@ -654,21 +657,21 @@ def c09_parts(tier, seed):
     DEEP = "D1;D2;D3;D4;D5;D6;D7;D8"
     if q:
         return [
-            P("tsan-default-all", T, "sched-tsan", ["--part", "explore", "--threads", "2,3", "--bound", 0, "--scripts", "S1;S2;S3;S4;S5;S6;S7;S8;S9;S10;S11;S12;S13;S14;S15;S16;S17"], workers=10, env=TSAN_ENV, require=["schedules"], deadline_frac=0.9),
+            P("tsan-default-all", T, "sched-tsan", ["--part", "explore", "--threads", "2,3", "--bound", 0, "--scripts", "S1;S2;S3;S4;S5;S6;S7;S8;S9;S10;S11;S12;S13;S14;S15;S16;S17;S18"], workers=10, env=TSAN_ENV, require=["schedules"], deadline_frac=0.9),
             P("tsan-deep-default", T, "sched-tsan", ["--part", "explore", "--threads", "2", "--bound", 0, "--scripts", DEEP], workers=8, env=TSAN_ENV, require=["schedules"], deadline_frac=0.9),
             P("tsan-deep-threads3", T, "sched-tsan", ["--part", "explore", "--threads", "3", "--bound", 0, "--scripts", "D2;D3;D4;D5;D8"], workers=5, env=TSAN_ENV, require=["schedules"], deadline_frac=0.9),
             P("tsan-bound1-options", T, "sched-tsan", ["--part", "explore", "--threads", "1", "--bound", 1, "--scripts", "S14"], workers=8, env=TSAN_ENV, require=["nontrivial"], deadline_frac=0.9),
             P("tsan-bound1-threads2", T, "sched-tsan", ["--part", "explore", "--threads", "2", "--bound", 1, "--scripts", "S2"], workers=16, env=TSAN_ENV, require=["nontrivial"], deadline_frac=0.9),
             P("tsan-pools", T, "sched-tsan", ["--part", "pool", "--bound", 1, "--poolcap", 12], workers=4, env=TSAN_ENV, require=["schedules"], deadline_frac=0.9),
-            P("tsan-free", T, "sched-tsan", ["--part", "free", "--threads", "4,8", "--scripts", "S1;S2;S3;S5;S7;S14;S15;S16;S17;D1;D6", "--reps", 1], workers=6, env=TSAN_ENV, require=["schedules"], deadline_frac=0.9),
+            P("tsan-free", T, "sched-tsan", ["--part", "free", "--threads", "4,8", "--scripts", "S1;S2;S3;S5;S7;S14;S15;S16;S17;S18;D1;D6", "--reps", 1], workers=6, env=TSAN_ENV, require=["schedules"], deadline_frac=0.9),
         ]
     return [
-        P("tsan-bound1-all", T, "sched-tsan", ["--part", "explore", "--threads", "2,3", "--bound", 1, "--scripts", "S1;S2;S3;S4;S5;S6;S7;S8;S9;S10;S11;S12;S13;S14;S15"], workers=16, env=TSAN_ENV, require=["schedules"], deadline_frac=0.8),
+        P("tsan-bound1-all", T, "sched-tsan", ["--part", "explore", "--threads", "2,3", "--bound", 1, "--scripts", "S1;S2;S3;S4;S5;S6;S7;S8;S9;S10;S11;S12;S13;S14;S15;S18"], workers=16, env=TSAN_ENV, require=["schedules"], deadline_frac=0.8),
         P("tsan-deep-default", T, "sched-tsan", ["--part", "explore", "--threads", "2,3,4", "--bound", 0, "--scripts", DEEP], workers=16, env=TSAN_ENV, require=["schedules"], deadline_frac=0.3),
         P("tsan-deep-bound1", T, "sched-tsan", ["--part", "explore", "--threads", "2", "--bound", 1, "--scripts", "D5;D3"], workers=16, env=TSAN_ENV, require=["nontrivial"], deadline_frac=0.5),
         P("tsan-bound1-options", T, "sched-tsan", ["--part", "explore", "--threads", "1,2", "--bound", 1, "--scripts", "S14;S15"], workers=8, env=TSAN_ENV, require=["nontrivial"], deadline_frac=0.6),
         P("tsan-pools", T, "sched-tsan", ["--part", "pool", "--bound", 1, "--poolcap", 200], workers=4, env=TSAN_ENV, require=["schedules"], deadline_frac=0.3),
-        P("tsan-free", T, "sched-tsan", ["--part", "free", "--threads", "2,4,8", "--scripts", "S1;S2;S3;S4;S5;S6;S7;S8;S9;S11;S14;S15;S16;S17;" + DEEP, "--reps", 3], workers=6, env=TSAN_ENV, require=["schedules"], deadline_frac=0.3),
+        P("tsan-free", T, "sched-tsan", ["--part", "free", "--threads", "2,4,8", "--scripts", "S1;S2;S3;S4;S5;S6;S7;S8;S9;S11;S14;S15;S16;S17;S18;" + DEEP, "--reps", 3], workers=6, env=TSAN_ENV, require=["schedules"], deadline_frac=0.3),
     ]
 
 CHECKS["C09"] = dict(
